@@ -378,7 +378,7 @@ PROPS["C15"] = Meta(
     [Job("d3", single(3), quick=(3, 300, 100), thorough=(16, 4000, 100)),
      Job("d2", single(2), quick=(2, 300, 100), thorough=(16, 4000, 100)),
      Job("d1", single(1), quick=(1, 300, 100), thorough=(16, 4000, 100)),
-     Job("d4", single(4), quick=(1, 150, 100), thorough=(16, 2000, 100)),
+     Job("d4", single(4), quick=(3, 375, 100), thorough=(16, 2000, 100)),
      Job("d3-float", single(3, 1, "float"), quick=(1, 300, 100), thorough=(16, 4000, 100)),
      Job("tsm-seq-d3", tsm(0, 3), quick=(2, 300, 100), thorough=(16, 4000, 100)),
      Job("tsm-seq-d2", tsm(0, 2), quick=(1, 300, 100), thorough=(16, 4000, 100)),
@@ -529,6 +529,15 @@ PROPS["C12"].jobs += [
 ]
 PROPS["C12"].assumptions = SCHED_ASSUME
 
+
+# ---- periodic ordering x target/source tree x OpenMP executor (no job combined the three until a seeded change clamped the working level of
+# the OpenMP target/source executor to 2, which only the periodic model - working level 1 - notices)
+for _p, _q in (("C10", (2, 300, 100)), ("C19", (1, 200, 100)), ("C12", (1, 300, 100)), ("C15", (1, 200, 100)), ("C02", (1, 300, 100))):
+    PROPS[_p].jobs.append(Job("ptsm-omp-d3", periodic(1, 1, 3), quick=_q, thorough=(16, 2500, 100)))
+
+# ---- C09 over move / rebuild / execute histories with one executor object (a seeded cache of interaction lists keyed by group bounds)
+PROPS["C09"].jobs += [Job("tsm-seq-d3-cycles", tsm(0, 3), quick=(2, 500, 100), thorough=(16, 3000, 100), args=["--cycles", "1"]),
+                      Job("tsm-seq-d2-cycles", tsm(0, 2), quick=(1, 500, 100), thorough=(16, 3000, 100), args=["--cycles", "1"])]
 
 # ---- C02 on the Specx / StarPU executors as well (a level captured by reference in a Specx task body was only seen by C03 through ASan)
 PROPS["C02"].jobs += [
